@@ -50,7 +50,7 @@ type Server struct {
 	new     chan *Listener
 
 	Shutdown    func(*Session)
-	delSession  chan uint32
+	delSession  chan device.ID
 	delListener chan string
 	sessions    map[uint32]*Session
 	cancel      context.CancelFunc
@@ -95,9 +95,10 @@ func (s *Server) listen() {
 			s.active[l.name] = l
 		case r := <-s.delListener:
 			delete(s.active, r)
-		case i := <-s.delSession:
+		case d := <-s.delSession:
+			i := d.Hash()
 			s.lock.Lock()
-			if v, ok := s.sessions[i]; ok {
+			if v, ok := s.sessions[i]; ok && v.ID == d {
 				if s.Shutdown != nil {
 					s.queue(event{s: v, sf: s.Shutdown})
 				}
@@ -246,7 +247,7 @@ func (s *Server) Remove(i device.ID, shutdown bool) {
 		if !s.IsActive() {
 			return
 		}
-		s.delSession <- i.Hash()
+		s.delSession <- i
 		return
 	}
 	if !s.IsActive() {
@@ -254,7 +255,7 @@ func (s *Server) Remove(i device.ID, shutdown bool) {
 	}
 	s.lock.RLock()
 	v, ok := s.sessions[i.Hash()]
-	if s.lock.RUnlock(); !ok {
+	if s.lock.RUnlock(); !ok || v.ID != i {
 		return
 	}
 	v.Close()
@@ -275,7 +276,7 @@ func NewServerContext(x context.Context, l logx.Log) *Server {
 		active:      make(map[string]*Listener),
 		events:      make(chan event, maxEvents),
 		sessions:    make(map[uint32]*Session),
-		delSession:  make(chan uint32, 64),
+		delSession:  make(chan device.ID, 64),
 		delListener: make(chan string, 16),
 	}
 	s.ctx, s.cancel = context.WithCancel(x)
